@@ -199,18 +199,44 @@ func (c *Cluster) Snapshot() map[string]string {
 	return out
 }
 
+// canon maps the path of an object under any served API version to the one it is stored under (a real API server
+// serves one stored object under every version of its group: autoscaling/v2 and autoscaling/v1 here).
+func canon(path string) string {
+	return strings.Replace(path, "/apis/autoscaling/v2/", "/apis/autoscaling/v1/", 1)
+}
+
+// servedAs returns o labelled with the API version the request path names.
+func servedAs(path string, o interface{}) interface{} {
+	m, ok := o.(map[string]interface{})
+	if !ok || m["kind"] == "Status" {
+		return o
+	}
+	for _, v := range []string{"autoscaling/v1", "autoscaling/v2"} {
+		if strings.Contains(path, "/apis/"+v+"/") {
+			c := deepCopyJSON(m)
+			c["apiVersion"] = v
+			return c
+		}
+	}
+	return o
+}
+
 // Get returns a deep copy of the object at path, or nil.
 func (c *Cluster) Get(path string) map[string]interface{} {
+	asked := path
+	path = canon(path)
 	c.mu.Lock()
 	defer c.mu.Unlock()
 	if o, ok := c.Objs[path]; ok {
-		return deepCopyJSON(o)
+		// as the API server would serve it under the version the path names
+		return servedAs(asked, deepCopyJSON(o)).(map[string]interface{})
 	}
 	return nil
 }
 
 // Put stores an object out of band (not logged).
 func (c *Cluster) Put(path string, o map[string]interface{}) {
+	path = canon(path)
 	c.mu.Lock()
 	defer c.mu.Unlock()
 	c.Objs[path] = deepCopyJSON(o)
@@ -218,6 +244,7 @@ func (c *Cluster) Put(path string, o map[string]interface{}) {
 
 // Remove deletes an object out of band (not logged).
 func (c *Cluster) Remove(path string) {
+	path = canon(path)
 	c.mu.Lock()
 	defer c.mu.Unlock()
 	delete(c.Objs, path)
@@ -359,7 +386,8 @@ func (t *Transport) RoundTrip(req *http.Request) (*http.Response, error) {
 		t.C.Log.add(ev)
 		return jsonResp(req, code, statusObj(code, reasonFor[code], "injected fault on "+req.Method+" "+key)), nil
 	}
-	code, out := t.C.handle(req.Method, p, key, isObj, body, req.Header.Get("Content-Type"), dry)
+	code, out := t.C.handle(req.Method, canon(p), canon(key), isObj, body, req.Header.Get("Content-Type"), dry)
+	out = servedAs(p, out)
 	ev.Code = code
 	t.C.Log.add(ev)
 	return jsonResp(req, code, out), nil
